@@ -4,7 +4,7 @@
    every run.  Tied to specs.py / runner.py / conventions.py by harness/props/c12.py. *)
 From Coq Require Import List ZArith Bool Arith.
 From YV Require Import Common.Corr Model.Resolution Model.Naming Gen.Registry
-                       Lemmas.ResolutionSpec Lemmas.ResolutionWinner Lemmas.ResolutionBind Lemmas.ResolutionRank Lemmas.ResolutionMap Lemmas.ResolutionWf Lemmas.ResolutionRegistry.
+                       Lemmas.ResolutionSpec Lemmas.ResolutionWinner Lemmas.ResolutionBind Lemmas.ResolutionRank Lemmas.ResolutionMap Lemmas.ResolutionWf Lemmas.ResolutionRegistry Lemmas.ResolutionCall.
 Import ListNotations.
 Close Scope Z_scope.
 
@@ -169,6 +169,27 @@ Proof.
   - apply split_args_plain.
 Qed.
 
+(* receiver form of call(): the receiver is the first positional argument of the binding and a plain
+   value in both call forms *)
+Theorem C12_call_function_receiver : forall (sub : tag -> tag -> bool) ps r args kw,
+  NoDup (bound_names ps) -> forallb eager_kind ps = true ->
+  get_delegate sub ps (ARaw r :: map to_raw args) (raw_kw kw) = get_delegate sub ps (ARaw r :: args) kw.
+Proof. exact call_function_receiver. Qed.
+
+(* lazy Lambda() parameters: call() hands over the VALUE of the argument where the direct call hands
+   over its expression; the parameter accepts both and what it delivers forces to the same value (the
+   wrapper returns the value / evaluates the expression when the payload calls it).  With
+   C12_binding_depends_on_delivery: the two bindings differ only in when lazy arguments are evaluated.
+   (partial: stated per parameter, not lifted to the whole binding; YaqlExpression / MappingRule /
+   constant-kind parameters reject plain values, so call() legitimately cannot reach them) *)
+Theorem C12_call_function_lazy_partial : forall (sub : tag -> tag -> bool) p a,
+  pkind p = KLambda -> arg_value a <> None ->
+  match deliver sub p (Some (Some (evaluated a))), deliver sub p (Some (Some a)) with
+  | Some b1, Some b2 => force b1 = force b2
+  | _, _ => False
+  end.
+Proof. exact lambda_call_equiv. Qed.
+
 (* general form behind the theorems above: the binding is determined by what is delivered to every
    parameter, to *args and to **kwargs *)
 Theorem C12_binding_depends_on_delivery : forall (sub : tag -> tag -> bool) ps args1 kw1 args2 kw2,
@@ -239,4 +260,6 @@ Print Assumptions C12_kind_exclusive.
 Print Assumptions C12_alias_is_convention.
 Print Assumptions C12_call_function.
 Print Assumptions C12_call_translation.
+Print Assumptions C12_call_function_receiver.
+Print Assumptions C12_call_function_lazy_partial.
 Print Assumptions C12_binding_depends_on_delivery.
